@@ -65,3 +65,8 @@ claimed["C15"] = dict(engine="engine-I", category="model_checking",
   text="every window (each bound alone too), pad on/off and every wrap width on 12 representative SAM files for toMultiAlign and toPairAlign; every window on 8 annotation layouts and on a SAM file for variants / sam variants; legacy --trim flags vs --start/--end for every window and refusal of mixing; pipe vs file input for every layout; each relation compares the option run with the transformed unrestricted run",
   note="trusted: the transformations (column slice, reference-column cut, position filter with p = first base of the codon) in harness/c15.go; join-straddling codons not judged",
   design_ref="DESIGN.md 3 (C15)")
+claimed["C11"] = dict(engine="engine-I", category="model_checking",
+  technique="bounded-exhaustive differential between `sam variants` and `variants` on the FASTA forms written by the real converters",
+  text="every valid single-record CIGAR (<=3 operators) at every POS on a 9-base reference and every 2-record cut of every M/I/D master alignment (<=4 operators), under a rotating choice of 64 option sets (4 annotations x --append-snps x 4 windows x reference from file/annotation; all 64 on a subset); the sam variants row must equal the variants row on the toPairAlign pair, on [reference, toMultiAlign --pad row] and (where flanks cannot interfere) on [reference, plain toMultiAlign row]",
+  note="trusted: nothing but the real code on both sides; domain restrictions for the plain-row relation listed in the evidence assumptions",
+  design_ref="DESIGN.md 3 (C11)")
